@@ -318,7 +318,8 @@ class TBRMatchedMarkets:
     budget_range = self.parameters.budget_range
 
     # Do not store patterns when we have the last treatment pattern size.
-    skip_this_trt_group_size = list(self.treatment_group_size_range()).pop()
+    trt_size_range = self.treatment_group_size_range()
+    skip_this_trt_group_size = trt_size_range[-1] if trt_size_range else None
     skip_treatment_geo_patterns = []
 
     results = heapdict.HeapDict(size=self.parameters.n_designs)
